@@ -55,6 +55,7 @@ type FrontSpec struct {
 // eager subsets in scrambled order, lazy types, scrambled body order.
 func Front(rt *rapid.T, spec FrontSpec) *run.Front {
 	f := &run.Front{}
+	f.XGoBuiltin = rapid.IntRange(0, 2).Draw(rt, "xgo_builtin") == 0
 	if rapid.IntRange(0, 3).Draw(rt, "plain") == 0 {
 		return f
 	}
@@ -142,6 +143,9 @@ func SimplifyFront(f *run.Front) []*run.Front {
 	if f.NoSkipConst {
 		add(func(c *run.Front) { c.NoSkipConst = false })
 	}
+	if f.XGoBuiltin {
+		add(func(c *run.Front) { c.XGoBuiltin = false })
+	}
 	return out
 }
 
@@ -176,6 +180,22 @@ func SimplifyProgram(p *prog.Program) []*prog.Program {
 			c.Files[i] = prog.SrcFile{Name: f.Name, Text: prog.FixImports(prog.JoinDecls(nc))}
 			out = append(out, c)
 		}
+	}
+	return out
+}
+
+var Forceable = []string{"errors", "unicode/utf8", "sort", "os", "bytes", "math"}
+
+// ForceImports draws 0-5 distinct paths to force-import (blank imports of one file).
+func ForceImports(rt *rapid.T) []string {
+	if rapid.IntRange(0, 2).Draw(rt, "force") != 0 {
+		return nil
+	}
+	n := rapid.IntRange(1, 5).Draw(rt, "nforce")
+	start := rapid.IntRange(0, len(Forceable)-1).Draw(rt, "force_start")
+	var out []string
+	for i := 0; i < n && i < len(Forceable); i++ {
+		out = append(out, Forceable[(start+i)%len(Forceable)])
 	}
 	return out
 }
